@@ -103,7 +103,7 @@ Section RuleProofs.
   Lemma fire_progress r l i l' i' : rule_matches r l i = true -> fire r l i = (l', i') ->
     (i' <= length l')%nat /\ (length l' - i' < length l - i)%nat.
   Proof.
-    unfold rule_matches, RuleModel.fire. intros Hm E. apply andb_prop in Hm. destruct Hm as [Hm H3]. apply andb_prop in Hm. destruct Hm as [H1 H2].
+    unfold rule_matches, RuleModel.fire. intros Hm E. apply andb_prop in Hm. destruct Hm as [Hm _]. apply andb_prop in Hm. destruct Hm as [Hm H3]. apply andb_prop in Hm. destruct Hm as [H1 H2].
     apply Nat.leb_le in H1. apply Nat.ltb_lt in H2. apply matches_from_length in H3. rewrite skipn_length in H3. unfold r_sort in *.
     injection E as <- <-. set (b := apply_items adv _ _ _ _).
     repeat (rewrite app_length || rewrite firstn_length || rewrite skipn_length). lia.
